@@ -12,7 +12,7 @@ def dflt(v: int, b: bytes, nn: bool) -> str:
 def build(tier, seed):
     entries = [e for e in select(tier) if "P" not in e["tags"] and "refsel" not in e["tags"]] + select(tier, families=("U",))
     if tier == "quick":
-        entries = [e for e in entries if not ("marker" in e["tags"] and "sbl" in e["tags"])]
+        entries = [e for e in entries if not ("marker" in e["tags"] and "sbl" in e["tags"]) and not e["key"].startswith("g_bridge")]
     obs = []
     for e in entries:
         for gen in ("generic", "generated"):
